@@ -9,6 +9,19 @@ Decides (for the build that is analysed: feature `parallel` on, as in the defaul
       collection with the same comparator (same value, or two closures with identical MIR fingerprints);
  (R3) every *_parallel predicate filter treats the evaluated predicate exactly like its sequential
       sibling: same variants rejected with an error, same variants tested for non-zero, Boolean by value;
+ (R5) a global position rebuilt inside a chunked pipeline (`par_chunks(n).enumerate()`: chunk index * something + offset)
+      multiplies the chunk index by the very value that was given to par_chunks (not by the length of the current,
+      possibly short, chunk);
+ (R6) parallel work is distributed over the data (par_iter / into_par_iter / par_chunks of the collection).  A parallel
+      iterator over an integer range whose closure slices the input by computed bounds (manual partitioning) must cover
+      the input: slice width = ceiling division of the length by the number of parts and the upper bound clamped to the
+      length; width = floor division leaves the last len % parts rows unprocessed (violation); any other form is not
+      decided (ANALYSIS-ERROR, fail closed);
+ (R7) the thread-local evaluator that the parallel filters rebuild per row (get_parallel_components ->
+      from_parallel_components) and the evaluators derived from `self` (with_incremented_depth, clone_for_new_expression)
+      carry every non-cache field of CombinedExpressionEvaluator over from the source evaluator: a field filled with a
+      constant (None, 0) makes the predicate see another context (CTEs, routine variables, nesting depth) on the parallel
+      path than on the sequential one;
  (R4) repeated execution: the functions that resolve an unqualified column name against several tables do not return
       the first hit of a HashMap iteration (std's HashMap order is randomised per map: two tables with a column of the
       same name would be resolved differently from one execution to the next).
@@ -247,8 +260,192 @@ def run(ctx):
                         'tables the answer depends on the map\'s random iteration order, so the same query can return different results on '
                         'repeated execution', f'{f.file}:{f.blocks[real[0][0]]["t"]["l"]}')
 
+    # ------------------------------------------------------------------ R7 evaluator reconstruction keeps the context
+    ctx.rule('C04.R7', 'every non-cache field of CombinedExpressionEvaluator is carried over when an evaluator is derived from another one: '
+             'get_parallel_components reads it from self, from_parallel_components fills it from a parameter, with_incremented_depth / '
+             'clone_for_new_expression fill it from the same field of self')
+    EV = EX + 'evaluator::combined_core::CombinedExpressionEvaluator'
+    adt = prog.adt(EV)
+    ctx.require(adt is not None, 'CombinedExpressionEvaluator not found')
+    fields = adt['variants'][0]['fields']
+    state = [(k, fl['name']) for k, fl in enumerate(fields) if not re.search(r'RefCell|\brc::Rc<|\bCell<|LruCache', fl['ty'])]
+    ctx.floor('C04.R7 non-cache fields of the evaluator', len(state), 9)
+
+    def ev_aggs(f):
+        sy = Sym(f)
+        for b in f.blocks:
+            for st in b['s']:
+                if 'd' in st and st['v']['r'] == 'agg' and str(st['v'].get('adt', '')) == EV:
+                    yield [sy.op(o) for o in st['v'].get('ops', [])]
+    derived = [f for f in prog.fns.values() if f.unit == 'vibesql_executor' and not is_test(f) and f.self_adt == EV and f.names.get(1) == 'self'
+               and any(True for _ in ev_aggs(f))]
+    ctx.floor('C04.R7 evaluators derived from self', len(derived), 2)
+    for f in derived:
+        for ops in ev_aggs(f):
+            for k, name in state:
+                ok = re.search(r'\bself\.' + re.escape(name) + r'\b', ops[k]) is not None
+                ctx.instance(f'R7/{f.nice.rsplit("::", 1)[1]}/{name}', {'rule': 'C04.R7', 'fn': f.nice, 'field': name, 'value': ops[k][:80], 'ok': ok})
+                if not ok:
+                    ctx.finding(f'R7/{f.nice.rsplit("::", 1)[1]}/{name}', f'{f.nice} builds the derived evaluator with {name} = {ops[k][:60]} instead of the '
+                                f'source evaluator\'s {name}', f.loc)
+    fp = [f for f in prog.find('from_parallel_components') if f.self_adt == EV]
+    gp = [f for f in prog.find('get_parallel_components') if f.self_adt == EV]
+    ctx.require(len(fp) == 1 and len(gp) == 1, 'get_parallel_components / from_parallel_components not found')
+    fp, gp = fp[0], gp[0]
+    params = set(fp.names.get(i) for i in range(1, fp.argc + 1))
+    for ops in ev_aggs(fp):
+        for k, name in state:
+            root = re.match(r'^[A-Za-z_][A-Za-z_0-9]*', ops[k])
+            ok = bool(root) and root.group(0) in params and 'const(' not in ops[k]
+            ctx.instance(f'R7/from_parallel_components/{name}', {'rule': 'C04.R7', 'fn': fp.nice, 'field': name, 'value': ops[k][:80], 'ok': ok})
+            if not ok:
+                ctx.finding(f'R7/from_parallel_components/{name}', f'the per-row evaluator of the parallel filters is rebuilt with {name} = {ops[k][:60]}: a WHERE '
+                            f'clause that needs the statement\'s {name} (CTE of a WITH clause, routine variable, nesting depth) evaluates differently '
+                            'once the row count passes the parallel threshold', fp.loc)
+    sg = Sym(gp)
+    read = set()
+    for b in gp.blocks:
+        for st in b['s']:
+            if 'd' in st and st['v']['r'] == 'agg':
+                for o in st['v'].get('ops', []):
+                    read.update(re.findall(r'\bself\.([A-Za-z_0-9]+)', sg.op(o)))
+    for k, name in state:
+        ctx.instance(f'R7/get_parallel_components/{name}', {'rule': 'C04.R7', 'fn': gp.nice, 'field': name, 'read': name in read})
+        if name not in read:
+            ctx.finding(f'R7/get_parallel_components/{name}', f'get_parallel_components does not hand the evaluator\'s {name} to the parallel filters', gp.loc)
+
+    # ------------------------------------------------------------------ R5 chunk index base
+    ctx.rule('C04.R5', 'inside a closure fed by par_chunks(n).enumerate() (argument type (usize, &[T])), every multiplication of the chunk index '
+             'has n (the value passed to par_chunks) as its other factor')
+    from ..engine.panics import _expand_upvar, _parent_of
+    nr5 = 0
+    for c in prog.fns.values():
+        if c.unit not in ('vibesql_executor', 'vibesql_storage') or is_test(c) or not c.is_closure():
+            continue
+        if len(c.locals) < 3 or not re.match(r'\(usize, &(mut )?\[', c.locals[2]):
+            continue
+        parent = _parent_of(prog, c)
+        if parent is None:
+            continue
+        sp = Sym(parent)
+        sizes = [sp.op(t['args'][1]) for i, t in parent.calls()
+                 if re.search(r'::(par_chunks|par_chunks_mut|par_chunks_exact|chunks|chunks_exact)$', (callee_generic_name(t) or '').split('<')[0]) and len(t['args']) > 1]
+        if not sizes:
+            continue
+        sc = Sym(c)
+        for bi, b in enumerate(c.blocks):
+            for st in b['s']:
+                if 'd' not in st or st['v']['r'] not in ('bin', 'checked') or 'Mul' not in str(st['v'].get('op')):
+                    continue
+                a, b2 = sc.op(st['v']['a']), sc.op(st['v']['b'])
+                if 'arg2.0' not in (a, b2):
+                    continue
+                other = b2 if a == 'arg2.0' else a
+                exp = _expand_upvar(prog, c, other)
+                nr5 += 1
+                ok = exp in sizes
+                ctx.instance(f'R5/{c.nice}', {'rule': 'C04.R5', 'fn': c.nice, 'chunk_index_multiplied_by': other, 'expands_to': exp[:120], 'par_chunks_size': sizes[0][:120], 'ok': ok})
+                if not ok:
+                    ctx.finding(f'R5/{parent.nice}', f'{parent.nice}: the position of a row is rebuilt as chunk_index * {other}, but the chunks were cut with '
+                                f'size {sizes[0][:80]}: for a short last chunk the positions point into an earlier chunk, so the parallel result differs '
+                                'from the sequential one', f'{c.file}:{st.get("l", c.line)}')
+    ctx.floor('C04.R5 chunk-index multiplications', nr5, 1)
+
+    # ------------------------------------------------------------------ R6 manual partitioning
+    ctx.rule('C04.R6', 'a parallel iterator over an integer range whose closure slices a collection by bounds computed from the range element '
+             'covers the collection: width is a ceiling division of the length by the number of parts and the upper bound is clamped to the length; '
+             'floor division is a violation; other forms are not decided (fail closed)')
+    ctx.fixture('R6 classifier: floor', _partition_verdict('(len(rows) Div n)', 'n', '(w MulWithOverflow k).0', '((w AddWithOverflow const(1)).0 MulWithOverflow k).0', 'rows', 'k') == 'floor')
+    ctx.fixture('R6 classifier: ceil', _partition_verdict('div_ceil(len(rows), n)', 'n', '(w MulWithOverflow k).0', 'min(((w AddWithOverflow const(1)).0 MulWithOverflow k).0, len(rows))', 'rows', 'k') == 'ok')
+    ctx.fixture('R6 classifier: unclamped', _partition_verdict('div_ceil(len(rows), n)', 'n', '(w MulWithOverflow k).0', '((w AddWithOverflow const(1)).0 MulWithOverflow k).0', 'rows', 'k') == 'undecided')
+    npar = 0; nrange = 0
+    for f in prog.fns.values():
+        if f.unit not in ('vibesql_executor', 'vibesql_storage') or is_test(f):
+            continue
+        sf = None
+        for i, t in f.calls():
+            gn = (callee_generic_name(t) or '')
+            if not re.search(r'rayon.*::(into_par_iter|par_iter|par_iter_mut)$', gn.split('<')[0]):
+                continue
+            npar += 1
+            sf = sf or Sym(f)
+            src = sf.op(t['args'][0])
+            if not src.startswith('Range('):
+                continue
+            nrange += 1
+            parts = _split_top(src[len('Range('):-1])
+            n_expr = parts[1] if len(parts) == 2 else '?'
+            for c in prog.children(f):
+                if not c.is_closure() or len(c.locals) < 3 or c.locals[2] != 'usize':
+                    continue
+                sc = Sym(c)
+                w = c.names.get(2, 'arg2')
+                for j, t2 in c.calls():
+                    g2 = (callee_generic_name(t2) or '')
+                    if not re.search(r'::(index|index_mut|get|get_mut|get_unchecked)$', g2.split('<')[0]) or len(t2['args']) < 2:
+                        continue
+                    ix = sc.op(t2['args'][1])
+                    if not ix.startswith('Range(') or not re.search(r'\b' + re.escape(w) + r'\b', ix):
+                        continue
+                    lo, hi = (_split_top(ix[len('Range('):-1]) + ['?', '?'])[:2]
+                    coll = sc.op(t2['args'][0])
+                    kname = None
+                    m = re.search(r'\(' + re.escape(w) + r' Mul\w* ([A-Za-z_][A-Za-z_0-9]*)\)', lo)
+                    if m:
+                        kname = m.group(1)
+                    kexp = _expand_upvar(prog, c, kname) if kname else '?'
+                    collp = _expand_upvar(prog, c, coll)
+                    verdict = _partition_verdict(kexp, n_expr, lo, hi, coll, kname or '?', collp)
+                    key = f'R6/{f.nice}'
+                    ctx.instance(key, {'rule': 'C04.R6', 'fn': f.nice, 'parts': n_expr[:80], 'width': kexp[:100], 'lo': lo[:100], 'hi': hi[:100], 'verdict': verdict})
+                    if verdict == 'floor':
+                        ctx.finding(key, f'{f.nice}: the input is partitioned by hand into {n_expr[:60]} slices of width {kexp[:80]} (floor division): the last '
+                                    f'len % parts rows belong to no slice and silently disappear from the parallel result', f'{c.file}:{t2["l"]}')
+                    elif verdict != 'ok':
+                        raise_undecided = f'{f.nice}: manual partition {coll}[{lo} .. {hi}] over {n_expr}: coverage of the input is not decided by rule C04.R6'
+                        ctx.require(False, raise_undecided)
+    ctx.floor('C04.R6 parallel iterator sources examined', npar, 8)
+    ctx.extra['parallel_iterators_over_integer_ranges'] = nrange
+
     ctx.assumptions.append('analysed with the default feature set (feature `parallel` enabled); the cfg(not(feature = "parallel")) arms are not compiled')
     ctx.assumptions.append('rayon collect() preserves the order of the source for all adaptors used (documented rayon behaviour)')
+
+
+def _split_top(x):
+    out = []; d = 0; cur = ''
+    for ch in x:
+        if ch in '([':
+            d += 1
+        elif ch in ')]':
+            d -= 1
+        if ch == ',' and d == 0:
+            out.append(cur.strip()); cur = ''
+        else:
+            cur += ch
+    if cur.strip():
+        out.append(cur.strip())
+    return out
+
+
+def _partition_verdict(k, n, lo, hi, coll, kname, coll_parent=None):
+    """k: the width as written in the enclosing function, n: number of parts, lo/hi: bounds in the closure"""
+    colls = {coll, coll_parent or coll, 'deref(' + coll + ')'}
+    lens = {f'len({c})' for c in colls}
+    nn = re.escape(n)
+    L = '(?:' + '|'.join(re.escape(x) for x in lens) + ')'
+    K = re.escape(kname)
+    lo_ok = re.fullmatch(r'\(\w+ Mul\w* ' + K + r'\)(\.0)?', lo) is not None
+    hi_core = r'\(\(\w+ Add\w* const\(1\)\)(\.0)? Mul\w* ' + K + r'\)(\.0)?'
+    hi_plain = re.fullmatch(hi_core, hi) is not None
+    hi_clamped = re.fullmatch(r'min\(' + hi_core + r', ' + L + r'\)', hi) is not None or re.fullmatch(r'min\(' + L + r', ' + hi_core + r'\)', hi) is not None
+    floor = re.fullmatch(r'\(' + L + r' Div ' + nn + r'\)', k) is not None
+    ceil = re.fullmatch(r'div_ceil\(' + L + r', ' + nn + r'\)', k) is not None or \
+        re.fullmatch(r'\(\(\(' + L + r' Add\w* ' + nn + r'\)(\.0)? Sub\w* const\(1\)\)(\.0)? Div ' + nn + r'\)', k) is not None
+    if lo_ok and floor and (hi_plain or hi_clamped):
+        return 'floor'
+    if lo_ok and ceil and hi_clamped:
+        return 'ok'
+    return 'undecided'
 
 
 def _is_work(cn, gn):
